@@ -267,14 +267,22 @@ theorem chooseBounding_none_name (d : String) (c : Circuit) : (chooseBounding no
 def NoBoundingMacro (c : Circuit) : Prop :=
   ∀ m ∈ c.macros, (m.name == "prepare_all") = false ∧ (m.name == "measure_all") = false
 
+/-- a successful `expand_subcircuits()` certifies it: `_choose_bounding_gate` refuses a bounding name that is a macro -/
+theorem noBoundingMacro_of_ok {c c' : Circuit} (h : expandSubcircuits none none c = .ok c') : NoBoundingMacro c := by
+  obtain ⟨_, _, _, _, hp, hm, _⟩ := expand_ok h
+  intro m hmem
+  simp only [boundingClash, boundingName, List.any_eq_false] at hp hm
+  exact ⟨by simpa using hp m hmem, by simpa using hm m hmem⟩
+
 /-- the tree map of `expand_subcircuits()` on (normalised) meanings -/
 def spellN : Sem → Sem := spellNorm (.gate "prepare_all" []) (.gate "measure_all" [])
 
-/-- **expand_subcircuits on meanings**: when no macro bears the name of a bounding gate, the expanded circuit means the
-spelled-out meaning of the original, under every environment. -/
+/-- **expand_subcircuits on meanings**: the expanded circuit means the spelled-out meaning of the original, under every
+environment (that no macro bears the name of a bounding gate is checked by the pass itself). -/
 theorem expandSubcircuits_meaning (ρ : Env) (c c' : Circuit) (it : Val) (b : List Stmt) (s : Sem)
-    (hb : c.body = .block false false it b) (hnb : NoBoundingMacro c)
+    (hb : c.body = .block false false it b)
     (h : expandSubcircuits none none c = .ok c') (hm : meaning ρ c = .ok s) : meaning ρ c' = .ok (spellN s) := by
+  have hnb := noBoundingMacro_of_ok h
   have hbody := C09_shape_body hb h
   have hmac := (C09_shape h).1
   have hpn := chooseBounding_none_name "prepare_all" c
